@@ -80,9 +80,9 @@ def main():
             else:
                 rc, o = sh(["go", "vet", "./" + pkgdir], wt, 180)
                 # stage 1: the package's own tests (most mutants die here); stage 2: every dependent package
-                rc, o = sh(["go", "test", "-vet=off", "-count=1", "-timeout", "180s", "./" + pkgdir], wt, 400)
+                rc, o = sh(["go", "test", "-vet=off", "-count=1", "-timeout", "90s", "./" + pkgdir], wt, 200)
                 if rc == 0:
-                    rc, o = sh(["go", "test", "-vet=off", "-count=1", "-timeout", "180s"] + deps, wt, 600)
+                    rc, o = sh(["go", "test", "-vet=off", "-count=1", "-timeout", "120s"] + deps, wt, 400)
                 if rc != 0:
                     # a flaky timing test under load must not count as a kill: retry the failing packages once
                     failed = sorted(set(re.findall(r"^(?:FAIL|---)\s+(\S+)", o, re.M)))
